@@ -263,7 +263,7 @@ def o_table_exact(h):
         for s in sas:
             if int(s.state) == 21:
                 out.append(('deleted-in-table', '%s keeps a DELETED IKE_SA in its table after %s' % (ep.name, ' '.join(h.ops[-1]))))
-            if int(s.state) in (20, 16) and s.new_ike_sa is not None and not any(x is s.new_ike_sa for x in sas):
+            if int(s.state) in (20, 16) and s.new_ike_sa is not None and int(s.new_ike_sa.state) != 21 and not any(x is s.new_ike_sa for x in sas):
                 out.append(('successor-not-registered', '%s: IKE_SA created by rekey is not in the table' % ep.name))
     return out
 
